@@ -1,3 +1,6 @@
 import Uflow.Props.C02
 open Uflow.Props.C02
 #print axioms C02_pidSub_lt
+#print axioms C02_leads_correct
+#print axioms C02_leads_exact
+#print axioms C02_emitted_channel_lt
